@@ -3,7 +3,7 @@ PROP = dict(
   level='other',
   strict_obligations=True,
   obligations=['static.hmm.no_use_after_move', 'static.hms.no_use_after_move', 'hms.find.*', 'hms.contains.*', 'hms.find_key.*', 'hms.insert.*', 'hms.erase.*', 'hms.iter.erase.*',
-               'hmm.order.total', 'hmm.map_to_bucket.range', 'hmm.find.*', 'hmm.mem.safe', 'hmm.insert.*', 'hmm.erase.*', 'hmm.iter.erase.*'],
+               'hms.sync.orders', 'hmm.sync.orders', 'hmm.order.total', 'hmm.map_to_bucket.range', 'hmm.find.*', 'hmm.mem.safe', 'hmm.insert.*', 'hmm.erase.*', 'hmm.iter.erase.*'],
   explanation='Set/map refinement of find / contains / emplace / emplace_or_get / get_or_emplace(_lazy) / operator[] / erase(key) / erase(iterator) on the extracted text of both '
               'Harris-Michael containers, from ANY well-formed list (symbolic keys and hashes, arbitrary delete marks, unlinked marked nodes still pointing into the list), '
               'ordering predicates total (both memoize_hash modes), and in INT mode (unbounded legal interference, retry loops cut by invariants) the commit obligations: every CAS '
